@@ -170,7 +170,8 @@ pub fn run(ctx: &Ctx) {
 
     let urls: Vec<&'static str> = vec!["foo", "foo.scss", "foo.sass", "foo.css", "foo.bar", "dir/foo", "./foo", "../up/foo"];
     let kinds = [Kind::Import, Kind::Use, Kind::Forward];
-    let lp_lists: Vec<Vec<&'static str>> = if ctx.quick() { vec![vec![], vec!["lp1", "lp2"]] } else { vec![vec![], vec!["lp1"], vec!["lp1", "lp2"], vec!["lp2", "lp1"]] };
+    // (the list in non-lexical order is in both tiers: load paths are a sequence, not a set)
+    let lp_lists: Vec<Vec<&'static str>> = if ctx.quick() { vec![vec![], vec!["lp2", "lp1"]] } else { vec![vec![], vec!["lp1"], vec!["lp1", "lp2"], vec!["lp2", "lp1"]] };
     let importers: Vec<&'static str> = if ctx.quick() { vec![""] } else { vec!["", "sub"] };
 
     let mut cases: Vec<Case> = Vec::new();
@@ -315,10 +316,9 @@ pub fn run(ctx: &Ctx) {
     {
         let sub = "two-importers";
         let uni: Vec<&str> = vec!["foo.scss", "_foo.scss", "sub/foo.scss", "sub/_foo.sass", "lp1/foo.scss", "lp2/foo.scss", "lp1/_foo.scss"];
-        let lps = ["lp1", "lp2"];
-        // (kind, order) x subsets of the universe
+        // (kind, order, load-path order) x subsets of the universe
         let nsub = 1u64 << uni.len();
-        let variants: Vec<(Kind, bool)> = vec![(Kind::Import, false), (Kind::Import, true), (Kind::Use, false), (Kind::Use, true)];
+        let variants: Vec<(Kind, bool, bool)> = vec![(Kind::Import, false, false), (Kind::Import, true, false), (Kind::Use, false, false), (Kind::Use, true, false), (Kind::Import, false, true), (Kind::Use, true, true)];
         par(
             ctx,
             sub,
@@ -326,11 +326,12 @@ pub fn run(ctx: &Ctx) {
             |i| json!({"files": uni.iter().enumerate().filter(|(k, _)| (i % nsub) & (1 << k) != 0).map(|x| x.1).collect::<Vec<_>>(), "variant": format!("{:?}", variants[(i / nsub) as usize])}),
             |i, l| {
                 let mask = i % nsub;
-                let (kind, sub_first) = variants[(i / nsub) as usize];
+                let (kind, sub_first, lp_rev) = variants[(i / nsub) as usize];
+                let lps: [&str; 2] = if lp_rev { ["lp2", "lp1"] } else { ["lp1", "lp2"] };
                 let files: Vec<String> = uni.iter().enumerate().filter(|(k, _)| mask & (1 << k) != 0).map(|x| x.1.to_string()).collect();
                 let fileset: BTreeSet<String> = files.iter().cloned().collect();
-                let locs_main: Vec<String> = vec!["".into(), "lp1".into(), "lp2".into()];
-                let locs_sub: Vec<String> = vec!["sub".into(), "lp1".into(), "lp2".into()];
+                let locs_main: Vec<String> = vec!["".into(), lps[0].into(), lps[1].into()];
+                let locs_sub: Vec<String> = vec!["sub".into(), lps[0].into(), lps[1].into()];
                 let r_main = resolve(&fileset, "foo", kind, &locs_main);
                 let r_sub = resolve(&fileset, "foo", kind, &locs_sub);
                 if r_main == Res::Ambiguous || r_sub == Res::Ambiguous {
@@ -353,7 +354,7 @@ pub fn run(ctx: &Ctx) {
                 let o = compile_path("e.scss", &cfg, &Env { fs: &fs, logger: &grass_compiler::NullLogger });
                 l.outcome(o.digest());
                 l.validated += 1;
-                let key = format!("two-importers:{:?}:{}:files={}", kind, if sub_first { "sub-first" } else { "main-first" }, files.join("+"));
+                let key = format!("two-importers:{:?}:{}:{}:files={}", kind, if sub_first { "sub-first" } else { "main-first" }, lps.join(">"), files.join("+"));
                 let detail = json!({"e.scss": main_src, "sub/x.scss": x_body, "files": files, "load_paths": lps, "observed": o.brief()});
                 match (&r_main, &r_sub, &o) {
                     (_, _, Outcome::Panic(p)) => ctx.violation(sub, &key, &format!("panic: {}", p), detail),
@@ -374,8 +375,80 @@ pub fn run(ctx: &Ctx) {
                 }
             },
         );
-        ctx.bound(sub, "`foo` loaded from the entry file and from sub/x.scss, in both orders, with @import and with @use, over all 2^7 subsets of 7 candidate files in the entry directory, sub/ and two load paths: each importer gets the file its own search order selects", true);
+        ctx.bound(sub, "`foo` loaded from the entry file and from sub/x.scss, in both orders, with @import and with @use, over all 2^7 subsets of 7 candidate files in the entry directory, sub/ and two load paths (in both orders): each importer gets the file its own search order selects", true);
         ctx.sample(sub, json!({"e.scss": "@import \"foo\";\n@import \"sub/x\";", "sub/x.scss": "@import \"foo\";", "files": ["lp1/foo.scss", "sub/foo.scss"]}));
+    }
+
+    // ---- a relative load after loading a file from another directory ---------------------------
+    {
+        let sub = "after-foreign-load";
+        // the entry (or a file in sub/) first loads a file that lives elsewhere, then `foo` relative to itself
+        let firsts: Vec<(&str, &str, &str)> = vec![
+            // (url of the first load, path of the file it resolves to, its content)
+            ("vendor/reset", "vendor/reset.css", "r{from:reset-css}"),
+            ("vendor/reset.css", "vendor/reset.css", "r{from:reset-css}"),
+            ("vendor/base", "vendor/_base.scss", "r{from:base-scss}"),
+            ("vendor/chain", "vendor/chain.scss", "@import \"inner\";"),
+            ("lpmod", "lp1/lpmod.scss", "r{from:lpmod}"),
+            ("vendor/ind", "vendor/ind.sass", "r\n  from: ind-sass\n"),
+        ];
+        let n = (firsts.len() * 2 * 2 * 4) as u64;
+        par(
+            ctx,
+            sub,
+            n,
+            |i| json!({"index": i}),
+            |i, l| {
+                let i = i as usize;
+                let (url1, path1, content1) = firsts[i % firsts.len()];
+                let use_rule = (i / firsts.len()) % 2 == 1;
+                let from_sub = (i / firsts.len() / 2) % 2 == 1;
+                let decoys = i / firsts.len() / 4; // which decoy `foo` files exist next to the first-loaded file
+                if use_rule && url1 == "vendor/reset" {
+                    // @use of an extension-less URL that resolves to .css is fine too; keep it
+                }
+                let dir = if from_sub { "sub/" } else { "" };
+                let up = if from_sub && url1 != "lpmod" { "../" } else { "" };
+                let (r1, r2) = if use_rule { (format!("@use \"{}{}\" as a;", up, url1), "@use \"foo\" as b;".to_string()) } else { (format!("@import \"{}{}\";", up, url1), "@import \"foo\";".to_string()) };
+                let importer = format!("{}imp.scss", dir);
+                let mut fs = MemFs::new();
+                fs.add("e.scss", &if from_sub { "@import \"sub/imp\";".to_string() } else { format!("{}\n{}\n", r1, r2) });
+                if from_sub {
+                    fs.add(&importer, &format!("{}\n{}\n", r1, r2));
+                }
+                let lpurl = url1 == "lpmod";
+                fs.add(path1, content1);
+                fs.add("vendor/inner.scss", "r{from:inner}");
+                fs.add(&format!("{}foo.scss", dir), "m{from:right-foo}");
+                let first_dir = std::path::Path::new(path1).parent().map(|p| p.to_string_lossy().to_string()).unwrap_or_default();
+                if decoys & 1 != 0 {
+                    fs.add(&format!("{}/foo.scss", first_dir), "m{from:decoy-next-to-first}");
+                }
+                if decoys & 2 != 0 {
+                    fs.add("lp1/foo.scss", "m{from:decoy-in-load-path}");
+                }
+                let cfg = Cfg { syntax: None, load_paths: vec!["lp1".into()], ..Cfg::default() };
+                l.evals += 1;
+                let o = compile_path("e.scss", &cfg, &Env { fs: &fs, logger: &grass_compiler::NullLogger });
+                l.outcome(o.digest());
+                l.validated += 1;
+                let key = format!("after-foreign-load:{}:{}:{}:decoys={}", url1, if use_rule { "use" } else { "import" }, if from_sub { "from-sub" } else { "from-entry" }, decoys);
+                let detail = json!({"files": fs.json(), "load_paths": ["lp1"], "observed": o.brief()});
+                let _ = lpurl;
+                match &o {
+                    Outcome::Ok(c) => {
+                        l.nontrivial += 1;
+                        let got: Vec<String> = css::flatten(&css::parse(c).unwrap_or_default()).into_iter().filter(|b| b.selector == "m").flat_map(|b| b.decls).filter(|d| d.0 == "from").map(|d| d.1).collect();
+                        if got != vec!["right-foo".to_string()] {
+                            ctx.violation(sub, &key, &format!("after loading {} the importer's own `foo` ({}foo.scss) must be loaded; got {:?}", path1, dir, got), detail);
+                        }
+                    }
+                    other => ctx.violation(sub, &key, &format!("the layout must compile: {}", other.brief()), detail),
+                }
+            },
+        );
+        ctx.bound(sub, "6 first loads that resolve into another directory (plain CSS with and without extension, partial, a file that itself imports, a load-path hit, indented file) x {@import, @use} x importer in the entry directory / in sub/ x 4 decoy sets (a `foo` next to the first-loaded file, in the load path): the following `foo` resolves next to the importer", true);
+        ctx.sample(sub, json!({"e.scss": "@import \"vendor/reset\";\n@import \"foo\";", "files": ["vendor/reset.css", "foo.scss", "vendor/foo.scss"]}));
     }
 
     // ---- plain-CSS imports are emitted, never loaded -----------------------------------------
